@@ -341,4 +341,104 @@ theorem idle_stopped_returns {n mx : Nat} {s : St} (hr : Reachable n mx s) (hpc 
   apply run_trans hrun2
   simp [run, hs3, hrun4]
 
+/-- If the control thread still holds the resume lock when it is back in its loop (an interrupt hit
+it inside `pause()`), the unwinding `with` statement releases it. -/
+theorem release_if_held (s : St) (hpc : s.ctl.pc = .idle) :
+    ∃ tr s', run s tr = some s' ∧ s'.ctl.pc = .idle ∧ s'.ctl.holds = false ∧
+      s'.ctl.stopped = s.ctl.stopped ∧ s'.ctl.mustStop = s.ctl.mustStop ∧ s'.shutdown = s.shutdown := by
+  cases hh : s.ctl.holds
+  · exact ⟨[], s, rfl, hpc, hh, rfl, rfl, rfl⟩
+  · refine ⟨[.cRelease], { s with ctl := { s.ctl with holds := false } }, ?_, hpc, rfl, rfl, rfl, rfl⟩
+    simp [run, step, Act.thread, cstep, hpc, hh]
+
+/-- `shutdown()` called from the control loop's resting point runs to completion. -/
+theorem shutdown_completes (s : St) (hpc : s.ctl.pc = .idle)
+    (hcause : s.ctl.cause = true ∨ s.ctl.mustStop = true ∨ s.ctl.stopped = true) :
+    ∃ tr s', run s tr = some s' ∧ s'.ctl.pc = .idle ∧ s'.ctl.stopped = true ∧ s'.ctl.holds = s.ctl.holds := by
+  cases hsd : s.shutdown
+  · refine ⟨[.cShutdown, .cClockResume, .cSetResume, .cSetShutdown, .cShutdownRet],
+      { s with resume := true, shutdown := true, clockPaused := false, thr := notifyAll s.thr,
+               ctl := { s.ctl with pc := .idle, paused := false, stopped := true } }, ?_, rfl, rfl, rfl⟩
+    simp [run, step, Act.thread, cstep, hpc, hcause, hsd]
+  · refine ⟨[.cShutdown, .cClockResume, .cShutdownRet],
+      { s with clockPaused := false, ctl := { s.ctl with pc := .idle, paused := false, stopped := true } },
+      ?_, rfl, rfl, rfl⟩
+    simp [run, step, Act.thread, cstep, hpc, hcause, hsd]
+
+/-- The control state right after an exception or interrupt has unwound whatever it was doing. -/
+def unwound (s : St) : St :=
+  { s with ctl := { s.ctl with pc := .idle, mustStop := true, ctlFault := true, inCb := false } }
+
+/-- **No reachable state is a trap: `launch()` can always return.** From every reachable state — any
+number of threads, any retry limit, whatever the control thread, the pause workers and the background
+threads are in the middle of — there is a finite continuation after which `launch()` has returned. -/
+theorem can_always_return {n mx : Nat} {s : St} (hr : Reachable n mx s) :
+    ∃ tr s', run s tr = some s' ∧ s'.ctl.pc = .returned := by
+  have hC2 := (reachable_inv hr).1.2
+  unfold CInv2 at hC2
+  obtain ⟨_, _, _, _, _, _, _, _, c9, _, _, _, _, c14⟩ := hC2
+  -- first reach the resting point `idle ∧ stopped ∧ lock free`, or a later point of the epilogue
+  have rest : ∃ tr s', run s tr = some s' ∧
+      (s'.ctl.pc = .returned ∨ s'.ctl.pc = .finalIn ∨
+        (s'.ctl.pc = .idle ∧ s'.ctl.stopped = true ∧ s'.ctl.holds = false)) := by
+    cases hst : s.ctl.stopped
+    · -- the loop is still running: an interrupt unwinds it, then `shutdown()` runs
+      have h1 : s.ctl.pc ≠ .returned := by intro h; have := c9 (Or.inr h); simp [hst] at this
+      have h2 : s.ctl.pc ≠ .finalIn := by intro h; have := c9 (Or.inl h); simp [hst] at this
+      have hs1 : step s .cExc = some (unwound s) := by
+        simp [step, Act.thread, cstep, h1, h2, hst, unwound]
+      obtain ⟨tr2, s2, hrun2, hpc2, hh2, _, hm2, _⟩ := release_if_held (unwound s) rfl
+      obtain ⟨tr3, s3, hrun3, hpc3, hst3, hh3⟩ := shutdown_completes s2 hpc2 (Or.inr (Or.inl (by rw [hm2]; rfl)))
+      refine ⟨.cExc :: (tr2 ++ tr3), s3, ?_, Or.inr (Or.inr ⟨hpc3, hst3, by rw [hh3]; exact hh2⟩)⟩
+      simp only [run, hs1]
+      exact run_trans hrun2 hrun3
+    · have hpcs := (c14 hst).2.2.2
+      have hsd : s.shutdown = true := (c14 hst).2.2.1
+      rcases hpcs with h | h | h | h | h
+      · obtain ⟨tr, s', hrun, hpc', hh', hst', _, _⟩ := release_if_held s h
+        exact ⟨tr, s', hrun, Or.inr (Or.inr ⟨hpc', by rw [hst']; exact hst, hh'⟩)⟩
+      · -- inside a repeated `shutdown()`: finish it
+        have hs1 : run s [.cClockResume, .cShutdownRet] =
+            some { s with clockPaused := false, ctl := { s.ctl with pc := .idle, stopped := true } } := by
+          simp [run, step, Act.thread, cstep, h, hsd]
+        obtain ⟨tr, s', hrun, hpc', hh', hst', _, _⟩ := release_if_held
+          { s with clockPaused := false, ctl := { s.ctl with pc := .idle, stopped := true } } rfl
+        exact ⟨_, s', run_trans hs1 hrun, Or.inr (Or.inr ⟨hpc', by rw [hst'], hh'⟩)⟩
+      · have hs1 : run s [.cShutdownRet] = some { s with ctl := { s.ctl with pc := .idle, stopped := true } } := by
+          simp [run, step, Act.thread, cstep, h]
+        obtain ⟨tr, s', hrun, hpc', hh', hst', _, _⟩ := release_if_held
+          { s with ctl := { s.ctl with pc := .idle, stopped := true } } rfl
+        exact ⟨_, s', run_trans hs1 hrun, Or.inr (Or.inr ⟨hpc', by rw [hst'], hh'⟩)⟩
+      · exact ⟨[], s, rfl, Or.inr (Or.inl h)⟩
+      · exact ⟨[], s, rfl, Or.inl h⟩
+  obtain ⟨tr1, s1, hrun1, hcase⟩ := rest
+  have hr1 := reachable_run hr tr1 hrun1
+  rcases hcase with h | h | ⟨hpc, hst, hh⟩
+  · exact ⟨tr1, s1, hrun1, h⟩
+  · obtain ⟨tr2, s2, hrun2, hret⟩ := final_save_completes s1 h
+    exact ⟨tr1 ++ tr2, s2, run_trans hrun1 hrun2, hret⟩
+  · obtain ⟨tr2, s2, hrun2, hret⟩ := idle_stopped_returns hr1 hpc hst hh
+    exact ⟨tr1 ++ tr2, s2, run_trans hrun1 hrun2, hret⟩
+
+/-- In particular no reachable state is a deadlock: unless `launch()` has returned, some action is enabled. -/
+theorem no_deadlock {n mx : Nat} {s : St} (hr : Reachable n mx s) (hnr : s.ctl.pc ≠ .returned) :
+    ∃ a, (step s a).isSome = true := by
+  obtain ⟨tr, s', hrun, hret⟩ := can_always_return hr
+  cases tr with
+  | nil => simp only [run, Option.some.injEq] at hrun; subst hrun; exact absurd hret hnr
+  | cons a rest =>
+    refine ⟨a, ?_⟩
+    simp only [run] at hrun
+    cases hs : step s a with
+    | none => simp [hs] at hrun
+    | some _ => rfl
+
+/-! Non-vacuity: the theorem applies to the middle of a pause attempt with both workers out
+(`C01.witnessTrace` cut before the acknowledgements), a state no command can leave by itself. -/
+example : ∃ s, Reachable 2 2 s ∧ s.ctl.pc = .tpSpawn ∧ s.resume = false ∧
+    ∃ tr s', run s tr = some s' ∧ s'.ctl.pc = .returned := by
+  have hr : Reachable 2 2 ((run (init 2 2) (witnessTrace.take 9)).get (by decide)) :=
+    ⟨witnessTrace.take 9, by simp⟩
+  exact ⟨_, hr, by decide, by decide, can_always_return hr⟩
+
 end Pamiq.Proto
